@@ -1051,6 +1051,14 @@ def generate(unit, template_path, canary=False, extra_fns=()):
             body = rule_R4(body, g.rewrites, where)
             if re.search(r"\b(?:Some|Ok|Err)\(\s*&\s*\w+\s*\)\s*=>", mask_rust(body)):
                 body = rule_R17(body, g.rewrites, where)
+            mm_ = re.findall(r"(?<=[(,])\s*mut\s+(\w+)\s*:", newsig)
+            for pn in mm_:
+                if pn == "self":
+                    continue
+                # R14 (by-value parameters): `fn f(mut x: T)` -> `fn f(x: T) { let mut x = x; .. }` (a `mut` parameter IS this shadowing)
+                newsig = re.sub(r"(?<=[(,])(\s*)mut\s+" + pn + r"\s*:", r"\1" + pn + ":", newsig, count=1)
+                body = "{ let mut " + pn + " = " + pn + ";" + body[1:]
+                g.rewrites.append({"rule": "R14", "where": where, "before": f"mut {pn}: ..", "after": f"{pn}: .. + `let mut {pn} = {pn};`"})
             if re.search(r"\bcontinue\b", mask_rust(body)):
                 body = rule_R15(body, g.rewrites, where)
             if re.search(r"\(\s*mut\s+self\b", newsig):
